@@ -230,6 +230,38 @@ func sniff(b []byte) string {
 	return "none"
 }
 
+// zstdFrameWindow: the memory a decoder must set aside for the first frame of a zstd stream, read from the frame
+// header (RFC 8878, 3.1.1.1): the window descriptor, or the frame content size of a single-segment frame.
+// libzstd with its default settings (dpkg-deb, apt, libarchive, tar --zstd, pacman) refuses frames beyond 2^27 bytes.
+func zstdFrameWindow(b []byte) (uint64, bool) {
+	if len(b) < 6 || sniff(b) != "zstd" {
+		return 0, false
+	}
+	fhd := b[4]
+	single := fhd&0x20 != 0
+	if !single {
+		wd := b[5]
+		base := uint64(1) << (10 + uint(wd>>3))
+		return base + base/8*uint64(wd&7), true
+	}
+	dict := []int{0, 1, 2, 4}[fhd&3]
+	fcs := []int{1, 2, 4, 8}[fhd>>6]
+	at := 5 + dict
+	if len(b) < at+fcs {
+		return 0, false
+	}
+	var v uint64
+	for i := fcs - 1; i >= 0; i-- {
+		v = v<<8 | uint64(b[at+i])
+	}
+	if fcs == 2 {
+		v += 256
+	}
+	return v, true
+}
+
+const zstdReferenceWindowLimit = 1 << 27
+
 // ---------- tar ----------
 
 // rawTarTypeflags walks the 512-byte blocks of a tar stream and returns the type flag of every header, including
@@ -866,6 +898,11 @@ func decodeDeb(b []byte) (*pkgObs, error) {
 		return o, fmt.Errorf("deb: third member is %q", ms[2].Name)
 	}
 	o.Struct["data_name_matches_stream"] = sniff(ms[2].Data) == kind || (kind == "none" && sniff(ms[2].Data) == "none")
+	if kind == "zstd" {
+		win, ok := zstdFrameWindow(ms[2].Data)
+		o.Struct["zstd_frame_header_readable"] = ok
+		o.Struct["zstd_window_within_reference_decoder_limit"] = win <= zstdReferenceWindowLimit
+	}
 	o.Raw["debian-binary"], o.Raw["control.tar.gz"], o.Raw["data"] = ms[0].Data, ms[1].Data, ms[2].Data
 	o.Raw["data-name"] = []byte(ms[2].Name)
 	o.Struct["only_gpg_after_data"] = true
@@ -1112,6 +1149,9 @@ func isMtreeKey(s string) bool {
 func decodeArch(b []byte) (*pkgObs, error) {
 	o := newObs("archlinux")
 	o.Struct["zstd_stream"] = sniff(b) == "zstd"
+	if win, ok := zstdFrameWindow(b); ok {
+		o.Struct["zstd_window_within_reference_decoder_limit"] = win <= zstdReferenceWindowLimit
+	}
 	plain, err := decompress("zstd", b)
 	if err != nil {
 		return o, fmt.Errorf("archlinux zstd: %w", err)
